@@ -27,6 +27,8 @@ type Case struct {
 	Prog   wprog.Case `json:"program"`
 	Damage string     `json:"damage"` // "cut" or "xref:<name>"
 	Cut    int        `json:"cut"`
+	// Aligned, if set, is a case of the aligned-document family (aligned.go); Prog is unused then.
+	Aligned *AlignedCase `json:"aligned,omitempty"`
 }
 
 // doc is a written file together with what the independent reader knows of it.
@@ -107,6 +109,25 @@ func (d *doc) judgeScan(data []byte, avail int64, damaged bool) *failure {
 		if fo == nil {
 			return &failure{"complete-object-not-listed:" + classify(o), fmt.Sprintf("object %v at offset %d is complete (endobj at %d <= %d) but is not listed at its offset (listed: %v)", ref, o.Offset, o.End, avail, offsets(listed[ref]))}
 		}
+		// is the stream's /Length available in these bytes?
+		lenOK := false
+		if o.IsStream {
+			lv := o.Val.Get("Length")
+			lenOK = lv.K == pdfsyn.Int
+			if lv.K == pdfsyn.Ref {
+				for _, c := range complete {
+					if c.Num == int(lv.N) {
+						lenOK = true
+					}
+				}
+			}
+			if !lenOK && bytes.Contains(o.Raw, []byte("endstream")) {
+				// the length object is cut off and the body itself contains "endstream":
+				// no reader can tell where this stream ends (as for the partial objects below)
+				d.note("stream-with-endstream-in-body-and-length-cut-off")
+				continue
+			}
+		}
 		if fo.Broken {
 			return &failure{"complete-object-broken:" + classify(o), fmt.Sprintf("object %v at offset %d is complete but marked broken", ref, o.Offset)}
 		}
@@ -120,15 +141,6 @@ func (d *doc) judgeScan(data []byte, avail int64, damaged bool) *failure {
 				return &failure{"complete-object-value:stream", fmt.Sprintf("object %v reads as %T, a stream was written", ref, got)}
 			}
 			// the data is only judged when /Length is available in these bytes
-			lv := o.Val.Get("Length")
-			lenOK := lv.K == pdfsyn.Int
-			if lv.K == pdfsyn.Ref {
-				for _, c := range complete {
-					if c.Num == int(lv.N) {
-						lenOK = true
-					}
-				}
-			}
 			if lenOK {
 				raw, _ := io.ReadAll(stm.NewReader())
 				if !bytes.Equal(raw, o.Raw) {
@@ -392,7 +404,7 @@ func Run(tier string) int {
 		budget = 25 * time.Minute
 	}
 	r := ev.New("C20", tier, "fault_enumeration", budget)
-	r.Rule("documents = all write programs (without WriteCompressed) up to max_ops operations with at most dev_bound non-default choices for 5 versions x human-readable x seekable; for each document EVERY truncation offset 0..len and every single cross-reference damage (keyword, each of the first table lines, whole table, trailer, startxref keyword/number/value, %%EOF, xref-stream header/dictionary/body; overwritten by spaces, 'x', NUL) is scanned; expected object spans come from the independent reader ref/pdffile; distinct = distinct (document bytes hash, damage) pairs")
+	r.Rule("documents = all write programs (without WriteCompressed) up to max_ops operations with at most dev_bound non-default choices for 5 versions x human-readable x seekable; for each document EVERY truncation offset 0..len and every single cross-reference damage (keyword, each of the first table lines, whole table, trailer, startxref keyword/number/value, %%EOF, xref-stream header/dictionary/body; overwritten by spaces, 'x', NUL) is scanned; plus the aligned documents (a fixed run of small objects behind a pad of every length, every cut); expected object spans come from the independent reader ref/pdffile; distinct = distinct (document bytes hash, damage) pairs")
 	r.Assume("object spans (header offset, offset past endobj) and values from ref/pdffile", "stream data is judged only when /Length is available in the remaining bytes (direct, or its indirect object complete)", "unencrypted documents")
 	if !r.Thorough() {
 		// the quick tier leaves out the high object numbers (they make every xref table 7 KiB long)
@@ -443,6 +455,16 @@ func Run(tier string) int {
 			r.Sample(Case{Prog: wprog.Case{Cfg: j.res.Cfg, MaxOps: j.maxOps, Choices: j.choices, Ops: j.res.Ops}, Damage: "cut", Cut: len(j.res.Bytes) / 2})
 		}
 	})
+	// aligned documents (aligned.go)
+	padMax := ev.Pick(r, 1100, 2200)
+	r.Dim("aligned_documents", fmt.Sprintf("pad 0..%d, every cut from the end of the pad to the end of the file; %d streams with indirect /Length + %d integer objects", padMax, alignedStreams, alignedInts))
+	r.Par(padMax+1, func(p int) {
+		if r.Expired() {
+			return
+		}
+		runAligned(r, p, nil)
+		r.DistinctS(fmt.Sprintf("aligned|%d", p))
+	})
 	return r.Finish()
 }
 
@@ -455,6 +477,10 @@ func Replay(path string) int {
 	}
 	r := ev.New("C20", "quick", "fault_enumeration", time.Minute)
 	r.SetReplayMode()
+	if cs.Aligned != nil {
+		runAligned(r, cs.Aligned.Pad, cs.Aligned)
+		return r.Finish()
+	}
 	res := wprog.Replay(cs.Prog, env)
 	if res.Accepted {
 		runCase(r, res, cs.Prog.Choices, cs.Prog.MaxOps, &cs)
